@@ -17,6 +17,7 @@ RULE = ("real adaptive runs of the three strategies (dimension-wise, extend-spli
         "on the returned tuple. distinct = digest of (strategy, limits, number of evaluations); non-trivial = run with >=2 "
         "evaluations, or a limit already met at the first evaluation")
 RULE += (" " + 'Integrand output scales 1e-9..1e3; limits that TIE with an attained point count.')
+RULE += (" A fifth of the observed runs are the SECOND run on the same strategy object (an earlier run with other limits came first).")
 REQUIRED = ["stop_rule_last", "stop_rule_not_before", "one_refine_between_evals", "array_lengths", "arrays_match_events",
             "points_monotone", "nonnegative_finite", "error_formula", "point_count_is_distinct_evaluations",
             "stopped_at_first_evaluation", "stopped_by_tolerance_midrun", "stopped_by_max"]
@@ -141,10 +142,18 @@ def p_norm(v, p):
     return float(np.sum(v ** p) ** (1.0 / p))
 
 
-def run_once(strategy, cfg, comps, reference, norm, tol, min_ev, max_ev):
+def run_once(strategy, cfg, comps, reference, norm, tol, min_ev, max_ev, prior=None):
     f = hooks.VFunction(comps)
     obs = Rec(f)
     c, err = build(strategy, cfg, f, obs, reference, norm)
+    if prior is not None:
+        # the same strategy object (operation, function cache, grids) already served an earlier run with other limits
+        c.vobs = None
+        with contextlib.redirect_stdout(io.StringIO()):
+            c.performSpatiallyAdaptiv(cfg["lmin"], cfg["lmax"], err, tol=-1.0, max_evaluations=prior, do_plot=False, print_output=False)
+        c.vobs = obs
+        f.since_mark = None
+        f.eval_points.clear()      # harness-side memo / counters start again for the observed run
     with contextlib.redirect_stdout(io.StringIO()):
         try:
             r = c.performSpatiallyAdaptiv(cfg["lmin"], cfg["lmax"], err, tol=tol, max_evaluations=max_ev, min_evaluations=min_ev,
@@ -196,7 +205,11 @@ def run_case(case, res):
         else:
             reference = np.array([oscale * rng.uniform(0.5, 3) for _ in range(nout)])
             refkind = "random"
-    c, f, obs, r = run_once(strategy, cfg, comps, reference, norm, tol, min_ev, max_ev)
+    prior = None
+    if strategy != "cell" and rng.random() < 0.2:
+        prior = rng.choice([1, 40, 90])
+        res.count("second_run_on_same_object")
+    c, f, obs, r = run_once(strategy, cfg, comps, reference, norm, tol, min_ev, max_ev, prior=prior)
     if r is None:
         res.note("ended_by_harness_guard(livelock or depth cap):" + strategy)
         res.hash = digest(["livelock", case["seed"]])
